@@ -29,7 +29,7 @@ def history_case(case):
             # the CA indexes these lists by the number of certificates issued so far for this identifier set
             cum_chain = (cum_chain if pi else []) + ph['chain_lens']
             cum_life = (cum_life if pi else []) + [100] * (n - 1) + [LONG]
-            ca.set_plan({'default': {'chain_lens': cum_chain, 'lifetimes_s': cum_life}})
+            ca.set_plan({'default': {'chain_lens': cum_chain, 'lifetimes_s': cum_life, 'pem_styles': case.get('pem_styles')}})
             cfg = S.std_config(d, ca, [{'name': 'c0', 'identifiers': S.ids('h.example.org'), 'key_type': ph['key_type'],
                                         'file_name_format': '{{ name }}.{{ file_type }}.{{ ext }}',
                                         'kp_reuse': ph.get('kp_reuse', False)}],
@@ -70,6 +70,7 @@ def history_case(case):
             for r in log:
                 ex = r.get('extra') or {}
                 if ex.get('issued'):
+                    res.setdefault('styles', set()).add(ex['issued'].get('pem_style'))
                     orders[ex['order']] = {'body_sha': ex['issued']['body_sha'], 'body_len': ex['issued']['body_len'],
                                            'csr_spki': ex['csr']['spki_sha256'], 'chain_len': ex['issued']['chain_len']}
             served_seq = [(r['extra']['order']) for r in log if r.get('kind') == 'cert' and r.get('status') == 200]
@@ -197,7 +198,9 @@ def run(tier):
                            'corrupt_key': bool(p and i % 3 == 1 and i % 2)})
             if phases[-1]['kp_reuse'] and len(phases) > 1:
                 phases[-1]['key_type'] = phases[-2]['key_type']      # reuse only makes sense with the same key type
-        cases.append({'i': i, 'phases': phases})
+        styles = ['canonical', 'blank-lines', 'crlf', 'no-final-newline', 'text-around', 'wrap76']
+        r.shuffle(styles)
+        cases.append({'i': i, 'phases': phases, 'pem_styles': styles if i % 2 else ['canonical']})
     results = C.parallel(cases, history_case)
     for res in results:
         chk.evaluations += 1
@@ -206,6 +209,8 @@ def run(tier):
             chk.count('histories_incomplete')
         chk.count('successful_issuances_compared', res['successes'])
         chk.count('chain_got_shorter', res['shrinks'])
+        for st in res.pop('styles', set()):
+            chk.count('pem_layout_%s' % st)
         chk.count('account_file_got_shorter', res['account_rewrites'])
         if res['successes']:
             chk.distinct.add(('history', json.dumps(res['case']['phases'], sort_keys=True)))
